@@ -4,7 +4,8 @@
    [Document w s v]: whitespace, one value, whitespace. *)
 From Coq Require Import NArith ZArith List Bool.
 From Qv Require Import gen.Tables_json JsonModel JsonSpec JsonProofsBase JsonProofsStr JsonProofsNum JsonProofsParse
-  JsonProofsComplete JsonProofsDoc JsonProofsCst JsonProofsInt JsonProofsC06 JsonProofsPrefix.
+  JsonProofsComplete JsonProofsDoc JsonProofsCst JsonProofsInt JsonProofsC06 JsonProofsPrefix JsonProofsDamage
+  JsonProofsNumAlpha JsonProofsCount.
 Import ListNotations.
 Local Open Scope N_scope.
 
@@ -68,10 +69,49 @@ Theorem c07_prefix_example : forall k, (k < length (cprint 1 ex_tree))%nat -> pa
 Proof. exact ex_tree_prefixes. Qed.
 Print Assumptions c07_prefix_example.
 
-(* NOT proved (correspondence only): a closing bracket in the MIDDLE of a document replaced by the
-   other kind or removed, a separator blanked.  The check damages every structural closing bracket
-   and every separator of every generated document on every run (C++ and model must both say
-   Undefined).  The outermost closing bracket removed is the case k = length - 1 above. *)
+(* ONE closing bracket replaced by the other kind, or ONE separator (comma / colon) blanked,
+   anywhere in the tree.  [Dmg w c t] (JsonProofsDamage.v): t is the text of the well-formed tree c
+   with exactly one such damage -- constructors D_arr_empty_swap / DA_swap / D_obj_empty_swap /
+   DO_swap (wrong closing bracket), DA_blank / DO_comma (comma blanked), DO_colon (colon blanked),
+   DA_child / DO_child / DA_later / DO_later (the damage lies deeper / further right). *)
+Theorem c07_wrong_bracket_or_blank_separator_rejected : forall w c t ws1 ws2,
+  Dmg w c t -> ws_wf ws1 = true -> parse w (ws1 ++ t ++ ws2) = JOk JUndef.
+Proof. exact damaged_rejected_all. Qed.
+Print Assumptions c07_wrong_bracket_or_blank_separator_rejected.
+
+(* ONE closing bracket removed, anywhere: [RmP w c P b S] (JsonProofsCount.v) says the text of c is
+   P ++ b :: S with b a structural closing bracket (of c or of a container nested in it).
+   Proof by counting: [net] = opening minus closing brackets outside strings is 0 for every document
+   of the grammar (c07_document_brackets_balanced) and 1 for P ++ S. *)
+Theorem c07_bracket_removed_rejected : forall w c P b S ws1 ws2,
+  RmP w c P b S -> cval_wf w c = true -> reals_ok c -> ws_wf ws1 = true -> ws_wf ws2 = true ->
+  parse w (ws1 ++ P ++ S ++ ws2) = JOk JUndef.
+Proof. exact bracket_removed_rejected_all. Qed.
+Print Assumptions c07_bracket_removed_rejected.
+
+Theorem c07_removed_position_is_a_bracket_of_the_text : forall w c P b S, RmP w c P b S -> cprint w c = P ++ b :: S.
+Proof. intros w. apply rmp_print. Qed.
+Print Assumptions c07_removed_position_is_a_bracket_of_the_text.
+
+Theorem c07_document_brackets_balanced : forall w s v, Document w s v -> net MOut s = 0%Z.
+Proof. exact document_net_zero. Qed.
+Print Assumptions c07_document_brackets_balanced.
+
+(* the number scanner never takes a quote or a bracket into a numeral (used by the count) *)
+Theorem c07_numerals_are_plain : forall r n r', scan_number r = JOk n -> num_rest n = Some r' ->
+  exists body, r = body ++ r' /\ forallb plain body = true.
+Proof. exact scan_number_plain. Qed.
+Print Assumptions c07_numerals_are_plain.
+
+(* non-vacuity:  [{"a":1},true]  with the inner brace turned into a bracket / the comma blanked /
+   the colon blanked / the inner brace removed *)
+Theorem c07_damage_examples :
+  parse 0 [91; 123; 34; 97; 34; 58; 49; 93; 44; 116; 114; 117; 101; 93] = JOk JUndef /\
+  parse 0 [91; 123; 34; 97; 34; 58; 49; 125; 32; 116; 114; 117; 101; 93] = JOk JUndef /\
+  parse 0 [91; 123; 34; 97; 34; 32; 49; 125; 44; 116; 114; 117; 101; 93] = JOk JUndef /\
+  parse 0 [91; 123; 34; 97; 34; 58; 49; 44; 116; 114; 117; 101; 93] = JOk JUndef.
+Proof. split; [exact dmg_ex_swap|split; [exact dmg_ex_comma|split; [exact dmg_ex_colon|exact rm_ex]]]. Qed.
+Print Assumptions c07_damage_examples.
 
 (* the inputs of D2 and D61 *)
 Example c07_d2_rejected : parse 0 [91; 91; 49; 32; 50; 93] = JOk JUndef /\ parse 0 [123; 34; 97; 34; 58; 91; 49; 32; 50; 125] = JOk JUndef.
